@@ -121,7 +121,17 @@ def f11_colon_in_first_segment(rec, args):
         return False
     s = obs.get("str")
     diff = obs.get("diff") or {}
-    if not isinstance(s, str) or "scheme" not in diff or diff["scheme"][0] != "":
+    if not isinstance(s, str):
+        return False
+    if "reparse_error" in obs:
+        # same defect, other symptom: what follows the would-be scheme does not even parse (e.g. 'http://://h/p' from 'http%3A//://h/p')
+        if not (rec.get("case") == "route" and len(args) >= 2 and isinstance(args[0], str)):
+            return False
+        from vlib import routes
+        name = args[0].split("~")[0]
+        if not (name in routes.CTOR_TEMPLATES or args[0] in routes.CTX_TEMPLATES or name.endswith("_noauth")):
+            return False
+    elif "scheme" not in diff or diff["scheme"][0] != "":
         return False
     first = re.split(r"[/?#]", s, 1)[0]
     if not (":" in first and not s.startswith("/")):
